@@ -49,12 +49,15 @@ def cases(tier, seed):
         one_based = h % 2 == 0
         tril = ["reflect", "drop", "none"][h % 3]
         bad = h % 4 == 3
-        recs = mk_records(rng, table, rng.randint(1, 8) if not bad else rng.randint(1, 3), allow_bad=bad)
+        many = h % 6 == 1 and not bad                                       # enough chunks for the two-pass merge
+        recs = mk_records(rng, table, (rng.randint(1, 8) if not many else rng.randint(9, 16)) if not bad else rng.randint(1, 3),
+                          allow_bad=bad)
         if one_based:
             recs = [[r[0], r[1] + 1, r[2], r[3] + 1] for r in recs]          # positions as written in a 1-based file
         via = "api" if h % 5 else "cload"
         yield "ig.records", {"table": table, "recs": recs, "one_based": one_based, "tril": tril, "valued": False,
-                             "via": via, "chunk": rng.choice([1, 2, 3, 1000]), "header": h % 10 == 0}
+                             "via": via, "chunk": rng.choice([1, 2, 3, 1000]) if not many else rng.choice([1, 2]),
+                             "header": h % 10 == 0, **({"max_merge": rng.choice([2, 3, 4])} if many else {})}
     # single records on every interesting position (both anchors), every option: the boundary cases of the property
     for table in tables[:6] if tier == "quick" else tables:
         nch = 1 + max(t[0] for t in table)
